@@ -4,7 +4,7 @@ SPEC = dict(
     proof_module="SimbodyProofs.C09",
     sources=["SimbodyModel/Proto.lean", "SimbodyModel/C09.lean", "SimbodyProofs/C09_lemmas.lean", "SimbodyProofs/C09.lean",
              "Drivers/C09.lean"],
-    n=dict(quick=800, thorough=60000),
+    n=dict(quick=800, thorough=30000),
     rtol=1e-9, atol=1e-12,
     rule="case k (k mod 16): general stream = random tree of 2-6 bodies from the ceq_tree v6 palette (18 mobilizer types, reversed "
          "1/4, Euler/quaternion), 1-4 random constraints of 18 types (one DISABLED in 1/4 of the multi-constraint cases), optional "
